@@ -333,7 +333,21 @@ pub fn tt_decompose(vector: &[f32], config: &TTConfig) -> Result<TTVector, TTErr
     let n = config.shape.len();
     let mut cores = Vec::with_capacity(n);
     let mut ranks = vec![1];
-    let mut current_data = vector.to_vec();
+    // The SVD below uses absolute thresholds (convergence, rank cut-off, normalisation), so it is
+    // run on the unit-norm vector and the norm is put back into the last core.
+    let norm = vector
+        .iter()
+        .map(|&x| f64::from(x) * f64::from(x))
+        .sum::<f64>()
+        .sqrt();
+    #[allow(clippy::cast_possible_truncation)]
+    let norm_f32 = norm as f32;
+    let scale = if norm_f32.is_finite() && norm_f32 > 0.0 {
+        norm_f32
+    } else {
+        1.0
+    };
+    let mut current_data: Vec<f32> = vector.iter().map(|&x| x / scale).collect();
     let mut left_rank = 1;
 
     // TT-SVD: sweep left to right
@@ -382,7 +396,7 @@ pub fn tt_decompose(vector: &[f32], config: &TTConfig) -> Result<TTVector, TTErr
         for j in 0..last_mode_size {
             let idx = i * last_mode_size + j;
             if idx < current_data.len() {
-                last_core_data[i * last_mode_size + j] = current_data[idx];
+                last_core_data[i * last_mode_size + j] = current_data[idx] * scale;
             }
         }
     }
